@@ -82,20 +82,35 @@ func (c *Ctx) record(op string, nontrivial bool) bool {
 	return true
 }
 
+var hangCount int
+var finishFn func()
+
 func (c *Ctx) fail(f Failure) {
-	if len(c.Failures) < c.MaxFail {
-		c.Failures = append(c.Failures, f)
-	} else {
-		// keep the shortest ones
-		worst := 0
-		for i := range c.Failures {
-			if len(c.Failures[i].Op) > len(c.Failures[worst].Op) {
+	if f.Impl == "hang" || strings.Contains(f.Note, "hang") {
+		hangCount++
+		defer func() {
+			if hangCount >= 3 {
+				// every abandoned call keeps spinning on a core: stop generating, report what we have
+				c.Notes = append(c.Notes, "run cut short after 3 non-terminating calls")
+				finishFn()
+				os.Exit(0)
+			}
+		}()
+	}
+	// retain up to MaxFail failures per kind, preferring the shortest op lines
+	n, worst := 0, -1
+	for i := range c.Failures {
+		if c.Failures[i].Kind == f.Kind {
+			n++
+			if worst < 0 || len(c.Failures[i].Op) > len(c.Failures[worst].Op) {
 				worst = i
 			}
 		}
-		if len(f.Op) < len(c.Failures[worst].Op) {
-			c.Failures[worst] = f
-		}
+	}
+	if n < c.MaxFail {
+		c.Failures = append(c.Failures, f)
+	} else if len(f.Op) < len(c.Failures[worst].Op) {
+		c.Failures[worst] = f
 	}
 	c.count("FAIL:" + f.Kind)
 }
@@ -262,7 +277,27 @@ func main() {
 	flag.Parse()
 	t0 := time.Now()
 	c := &Ctx{Prop: *prop, Tier: *tier, Seed: *seed, Rng: rand.New(rand.NewSource(*seed ^ int64(hash64(*prop)&0x7fffffff))),
-		Vdrv: *vdrv, Thorough: *tier == "thorough", distinct: map[uint64]struct{}{}, Dist: map[string]int{}, MaxFail: 40}
+		Vdrv: *vdrv, Thorough: *tier == "thorough", distinct: map[uint64]struct{}{}, Dist: map[string]int{}, MaxFail: 25}
+	finishFn = func() {
+		c.flush()
+		sort.Slice(c.Failures, func(i, j int) bool {
+			if c.Failures[i].Kind != c.Failures[j].Kind {
+				return c.Failures[i].Kind == "oracle"
+			}
+			return len(c.Failures[i].Op) < len(c.Failures[j].Op)
+		})
+		s := Summary{Prop: *prop, Tier: *tier, Seed: *seed, Evals: c.Evals, Distinct: len(c.distinct), Nontriv: c.Nontriv,
+			TracesOK: c.TracesOK, Samples: c.Samples, Dist: c.Dist, Failures: c.Failures, Notes: c.Notes, WallS: time.Since(t0).Seconds()}
+		if s.Failures == nil {
+			s.Failures = []Failure{}
+		}
+		data, _ := json.MarshalIndent(s, "", " ")
+		if *out != "" {
+			os.WriteFile(*out, data, 0644)
+		} else {
+			os.Stdout.Write(data)
+		}
+	}
 	if *replay != "" {
 		rf, ok := replays[*prop]
 		if !ok {
@@ -289,22 +324,5 @@ func main() {
 		}
 		f(c)
 	}
-	c.flush()
-	sort.Slice(c.Failures, func(i, j int) bool {
-		if c.Failures[i].Kind != c.Failures[j].Kind {
-			return c.Failures[i].Kind == "oracle"
-		}
-		return len(c.Failures[i].Op) < len(c.Failures[j].Op)
-	})
-	s := Summary{Prop: *prop, Tier: *tier, Seed: *seed, Evals: c.Evals, Distinct: len(c.distinct), Nontriv: c.Nontriv,
-		TracesOK: c.TracesOK, Samples: c.Samples, Dist: c.Dist, Failures: c.Failures, Notes: c.Notes, WallS: time.Since(t0).Seconds()}
-	if s.Failures == nil {
-		s.Failures = []Failure{}
-	}
-	data, _ := json.MarshalIndent(s, "", " ")
-	if *out != "" {
-		os.WriteFile(*out, data, 0644)
-	} else {
-		os.Stdout.Write(data)
-	}
+	finishFn()
 }
